@@ -196,7 +196,7 @@ def rule_share(ctx, m):
     ctx.ob('C04-R3', fn, 'joint positions from the same count vector', ok, norm(ns) if ok else 'joint index computation changed')
 
 
-def rule_suffix(ctx, m, rule='C04-R4', only=None):
+def rule_suffix(ctx, m, rule='C04-R4', only=None, name_filter=None):
     """first/second marker agreement in the antimeridian code."""
     prog = ctx.prog
     fns = [m.func(q) for q in ('Gridder._grid_trajectory_with_dateline_crossing',
@@ -222,6 +222,8 @@ def rule_suffix(ctx, m, rule='C04-R4', only=None):
                         bad.append(x.attr)
                     if isinstance(x, ast.Call) and isinstance(x.func, ast.Attribute) and marker(x.func.attr) not in (None, want):
                         bad.append(x.func.attr + '()')
+                if name_filter is not None:
+                    bad = [b for b in bad if name_filter(b)]
                 n += 1
                 ctx.ob(rule, fn, f'{want}-part assignment to {norm(st.targets[0])[:50]}', not bad,
                        f'only {want}-part inputs' if not bad else
@@ -232,19 +234,22 @@ def rule_suffix(ctx, m, rule='C04-R4', only=None):
             if call_name(c) == 'np.concatenate' and c.args and isinstance(c.args[0], (ast.List, ast.Tuple)) and len(c.args[0].elts) == 2:
                 a, b = c.args[0].elts
                 if isinstance(a, ast.Name) and isinstance(b, ast.Name) and marker(a.id) and marker(b.id):
+                    if name_filter is not None and not (name_filter(a.id) or name_filter(b.id)):
+                        continue
                     n += 1
                     stem = lambda s: re.sub(r'_?(first|second)', '', s)
                     ok = marker(a.id) == 'first' and marker(b.id) == 'second' and stem(a.id) == stem(b.id)
                     ctx.ob(rule, fn, f'concatenate [{a.id}, {b.id}]', ok, 'first then second of the same quantity' if ok else
                            'the two halves are joined in the wrong order or from different quantities', line=c.lineno)
-    ctx.floor(rule, n, 20, 'first/second-marked statements')
+    ctx.floor(rule, n, 12, 'first/second-marked statements')
 
 
 def run(ctx):
     m = ctx.prog.module(GRID)
     rule_split_sum(ctx, m)
     rule_share(ctx, m)
-    rule_suffix(ctx, m)
+    # only names that bear on the integrated quantities: the values themselves, the split lengths and the geometry
+    rule_suffix(ctx, m, name_filter=lambda nme: re.search(r'integrated|length|lat|lon', nme) is not None)
     ctx.note('NOT decided: the numeric conservation bound, grid-line intersection geometry, great-circle vs map-line lengths')
     ctx.assumptions += ['np.divide(out=, where=) leaves `out` untouched where the guard is false',
                         'np.repeat(a, counts) repeats element i counts[i] times']
